@@ -108,7 +108,7 @@ func init() {
 	}
 	stInd := func() *Ind { return FindInd("volatility.SuperTrend") }
 	RegStrat(&Strat{
-		Name: "volatility.SuperTrendStrategy",
+		Name: "volatility.SuperTrendStrategy", Periods: []int{1},
 		// cfg = [maKind, period, multiplier] as volatility.SuperTrend; maKind 3 = HMA is what NewSuperTrendStrategy() builds
 		// (HMA(14), 2.5: warm-up 17, beyond the trie budget; the HMA path is covered with small periods)
 		Cfgs: func(t bool) [][]float64 {
@@ -208,7 +208,7 @@ func init() {
 	})
 
 	RegStrat(&Strat{
-		Name: "volume.MoneyFlowIndexStrategy",
+		Name: "volume.MoneyFlowIndexStrategy", Periods: []int{0},
 		// cfg = [period, sellAt, buyAt]
 		Cfgs: func(t bool) [][]float64 {
 			var r [][]float64
